@@ -95,4 +95,75 @@ theorem setRcode_eq_encode (w rc : Nat) (hw : w < 2 ^ 16) :
     Nat.testBit_two_pow, Nat.testBit_two_pow_sub_one, Nat.testBit_shiftLeft, Nat.testBit_mod_two_pow, testBit_bit]
   bits16_cases i hi
 
+
+/-! ### bytes -/
+
+theorem be16_u16 (a b : Nat) (ha : a < 256) (hb : b < 256) : be16 (u16 a b) = [a, b] := by
+  unfold be16 u16
+  have h1 : (a * 256 + b) / 256 % 256 = a := by omega
+  have h2 : (a * 256 + b) % 256 = b := by omega
+  rw [h1, h2]
+
+theorem take_drop_len (t : Bytes) (c : Nat) (h : ¬ t.length < c) :
+    (t.take c).length = c ∧ t = t.take c ++ t.drop c := by
+  refine ⟨?_, (List.take_append_drop c t).symm⟩
+  rw [List.length_take]; omega
+
+/-- no compression pointer / reserved label type: a length octet below 64 -/
+theorem label_len_lt_64 (c : Nat) (hc : c < 256) (h : c &&& 0xC0 = 0) : c < 64 := by
+  have h6 : (c &&& 0xC0).testBit 6 = false := by rw [h]; simp
+  have h7 : (c &&& 0xC0).testBit 7 = false := by rw [h]; simp
+  rw [Nat.testBit_and] at h6 h7
+  have e6 : Nat.testBit 0xC0 6 = true := by decide
+  have e7 : Nat.testBit 0xC0 7 = true := by decide
+  rw [e6, Bool.and_true, Nat.testBit_eq_decide_div_mod_eq] at h6
+  rw [e7, Bool.and_true, Nat.testBit_eq_decide_div_mod_eq] at h7
+  simp only [decide_eq_false_iff_not] at h6 h7
+  omega
+
+/-! ### `walkName` -/
+
+theorem walkName_spec : ∀ (fuel : Nat) (l : Bytes) (ls : List Bytes) (r : Bytes),
+    walkName fuel l = some (ls, r) → (∀ x ∈ l, x < 256) →
+    l = encName ls ++ r ∧ (∀ lab ∈ ls, 1 ≤ lab.length ∧ lab.length ≤ 63) := by
+  intro fuel
+  induction fuel with
+  | zero => intro l ls r h; simp [walkName] at h
+  | succ n ih =>
+    intro l ls r h hb
+    cases l with
+    | nil => simp [walkName] at h
+    | cons c t =>
+      unfold walkName at h
+      by_cases hc0 : c = 0
+      · simp only [hc0, if_true, Option.some.injEq, Prod.mk.injEq] at h
+        obtain ⟨rfl, rfl⟩ := h
+        simp [encName, hc0]
+      · simp only [hc0, if_false] at h
+        by_cases hmask : c &&& 0xC0 ≠ 0
+        · simp [hmask] at h
+        · simp only [hmask, if_false] at h
+          by_cases hlen : t.length < c
+          · simp [hlen] at h
+          · simp only [hlen, if_false] at h
+            cases hrec : walkName n (t.drop c) with
+            | none => simp [hrec] at h
+            | some p =>
+              obtain ⟨ls', r'⟩ := p
+              simp only [hrec, Option.some.injEq, Prod.mk.injEq] at h
+              obtain ⟨rfl, rfl⟩ := h
+              have hbt : ∀ x ∈ t.drop c, x < 256 := fun x hx => hb x (List.mem_cons_of_mem _ (List.mem_of_mem_drop hx))
+              obtain ⟨hrest, hlabs⟩ := ih _ _ _ hrec hbt
+              obtain ⟨htl, hsplit⟩ := take_drop_len t c hlen
+              refine ⟨?_, ?_⟩
+              · simp only [encName, htl, List.cons_append, List.append_assoc]
+                rw [← hrest, ← hsplit]
+              · intro lab hlab
+                rcases List.mem_cons.mp hlab with rfl | hl
+                · rw [htl]
+                  have hc256 : c < 256 := hb c (List.mem_cons_self ..)
+                  have := label_len_lt_64 c hc256 (by simpa using hmask)
+                  omega
+                · exact hlabs lab hl
+
 end SdnsVerif.Lemmas.WirePath
